@@ -1,0 +1,67 @@
+//go:build verif
+
+// C11 contracts for package config (comment-only; read by /verif/vc).
+package config
+
+// DTLS encodes newer versions as numerically smaller Minor bytes (1.2 = fe fd, 1.3 = fe fc).
+// A range [minVersion, maxVersion] therefore contains v iff maxVersion.Minor <= v.Minor <= minVersion.Minor.
+
+//@ define inRange(v) (v.Minor <= minVersion.Minor && v.Minor >= maxVersion.Minor)
+
+//@ func versionAtLeast
+//@ inline
+//@ ensures def: result == (version.Minor <= minVersion.Minor)
+//@ end
+
+//@ func versionAtMost
+//@ inline
+//@ ensures def: result == (version.Minor >= maxVersion.Minor)
+//@ end
+
+// SelectVersion: remote is the peer's list in the peer's preference order. The result is the first
+// entry of remote inside the local range; when remote is newest-first (what SupportedVersionsRange
+// emits, see its newest-first clause) that is the highest version both sides allow.
+
+//@ define newestFirst(s) forall(0, len(s), func(i int) bool { return forall(i, len(s), func(j int) bool { return s[i].Minor <= s[j].Minor }) })
+
+//@ func SelectVersion
+//@ ensures member: result1 ==> exists(0, len(remote), func(i int) bool { return remote[i].Major == result0.Major && remote[i].Minor == result0.Minor })
+//@ ensures in-local-range: result1 ==> inRange(result0)
+//@ ensures first-acceptable: result1 ==> exists(0, len(remote), func(i int) bool { return remote[i].Major == result0.Major && remote[i].Minor == result0.Minor &&
+//@    forall(0, i, func(k int) bool { return !inRange(remote[k]) }) })
+//@ ensures highest-common: result1 && newestFirst(remote) ==> forall(0, len(remote), func(i int) bool { return inRange(remote[i]) ==> result0.Minor <= remote[i].Minor })
+//@ ensures fails-iff-disjoint: !result1 ==> forall(0, len(remote), func(i int) bool { return !inRange(remote[i]) })
+//@ ensures zero-on-failure: !result1 ==> result0.Major == 0 && result0.Minor == 0
+//@ ensures input-kept: forall(0, len(remote), func(i int) bool { return remote[i].Minor == old(remote[i].Minor) && remote[i].Major == old(remote[i].Major) })
+//@ loop #1: scanned: forall(0, idx, func(i int) bool { return !inRange(remote[i]) })
+//@ end
+
+// Only DTLS 1.2 (fe fd) and DTLS 1.3 (fe fc) exist for this library.
+
+//@ define is12(v) (v.Major == 254 && v.Minor == 253)
+//@ define is13(v) (v.Major == 254 && v.Minor == 252)
+
+//@ func NormalizeProtocolVersionRange
+//@ ensures min-supported: is12(result0) || is13(result0)
+//@ ensures max-supported: is12(result1) || is13(result1)
+//@ ensures min-13-iff: is13(result0) == is13(minVersion)
+//@ ensures max-13-iff: is13(result1) == is13(maxVersion)
+//@ end
+
+// SupportedVersionsRange: exactly the supported versions inside [minVersion, maxVersion], newest first.
+
+//@ func SupportedVersionsRange
+//@ ensures at-most-two: len(result) <= 2
+//@ ensures supported-and-in-range: forall(0, len(result), func(k int) bool { return (is12(result[k]) || is13(result[k])) && inRange(result[k]) })
+//@ ensures newest-first: forall(0, len(result), func(i int) bool { return forall(i+1, len(result), func(j int) bool { return result[i].Minor < result[j].Minor }) })
+//@ ensures has-13: 252 <= minVersion.Minor && 252 >= maxVersion.Minor ==> len(result) >= 1 && is13(result[0])
+//@ ensures has-12: 253 <= minVersion.Minor && 253 >= maxVersion.Minor ==> exists(0, len(result), func(k int) bool { return is12(result[k]) })
+//@ loop #1: progress: len(out) <= idx && cap(out) == 2 && len(ordered) == 2
+//@ loop #1: ordered-kept: is13(ordered[0]) && is12(ordered[1])
+//@ loop #1: out-fresh: disjoint(out, ordered) && offsetOf(ordered) == 0
+//@ loop #1: supported-and-in-range: forall(0, len(out), func(k int) bool { return (is12(out[k]) || is13(out[k])) && inRange(out[k]) })
+//@ loop #1: only-13-so-far: idx <= 1 ==> forall(0, len(out), func(k int) bool { return is13(out[k]) })
+//@ loop #1: newest-first: forall(0, len(out), func(i int) bool { return forall(i+1, len(out), func(j int) bool { return out[i].Minor < out[j].Minor }) })
+//@ loop #1: has-13: idx >= 1 && 252 <= minVersion.Minor && 252 >= maxVersion.Minor ==> len(out) >= 1 && is13(out[0])
+//@ loop #1: has-12: idx >= 2 && 253 <= minVersion.Minor && 253 >= maxVersion.Minor ==> exists(0, len(out), func(k int) bool { return is12(out[k]) })
+//@ end
